@@ -17,6 +17,9 @@ import RarenaVerif.Props.Common
 
 namespace Rarena.C01
 
+-- CHANGED (histories now contain `truncate`, which changes the capacity): the bound `x.st.allocated ≤ o.cap` became
+-- `x.st.allocated ≤ x.st.cap` (the current `capacity()`), and the last conjunct (the capacity is the configured one
+-- for the sync flavour, which has no `truncate`) was added so that nothing is lost where the old bound was true.
 /-- in every reachable state the accessible ranges of the handles still held are pairwise disjoint, lie in
     `[data_offset, allocated) ⊆ [data_offset, capacity)` (hence miss the reserved prefix and the header), and
     are disjoint from every detached (never released) range -/
@@ -24,15 +27,14 @@ theorem exclusive (o : Opts) (g : Guards o) (fuel : Nat) (hfuel : o.cap + 2 ≤ 
     (hr : Reachable o fuel x) :
     ((x.held.filter (fun m => m.memSize != 0)).map Meta.access).Pairwise disj ∧
     (∀ m ∈ x.held, m.memSize ≠ 0 →
-      o.dataOffset ≤ m.ptrOff ∧ m.ptrOff + m.ptrSize ≤ x.st.allocated ∧ x.st.allocated ≤ o.cap) ∧
-    (∀ m ∈ x.held, m.memSize ≠ 0 → ∀ e ∈ x.detached, disj m.access e) := by
-  obtain ⟨h, free, hrel, hc⟩ := reachable_rel o g fuel hfuel x hr
+      o.dataOffset ≤ m.ptrOff ∧ m.ptrOff + m.ptrSize ≤ x.st.allocated ∧ x.st.allocated ≤ x.st.cap) ∧
+    (∀ m ∈ x.held, m.memSize ≠ 0 → ∀ e ∈ x.detached, disj m.access e) ∧
+    (o.sync = true → x.st.cap = o.cap) := by
+  obtain ⟨h, free, hrel, _, hc⟩ := reachable_rel o g fuel hfuel x hr
   obtain ⟨h1, _, h3⟩ := held_exclusive o.cfg h hrel.hinv
   have hal : h.a.allocated = x.st.allocated := by rw [← hrel.abs]; rfl
-  have hcap : x.st.allocated ≤ o.cap := by
-    have := hrel.cinv.wf.hi
-    rw [← hc]; exact this
-  refine ⟨?_, ?_, ?_⟩
+  have hcap : x.st.allocated ≤ x.st.cap := hrel.cinv.wf.hi
+  refine ⟨?_, ?_, ?_, hc⟩
   · rw [hrel.held]; exact h1
   · intro m hm hne
     have := hrel.hinv.held_ok m (hrel.held ▸ hm) hne
@@ -48,15 +50,18 @@ theorem intact (o : Opts) (g : Guards o) (fuel : Nat) (hfuel : o.cap + 2 ≤ fue
     ∃ x', cstep o.cfg fuel x op = .ok x' ∧
       ∀ m ∈ x.held, m ∈ x'.held → (match op with | .fill i _ => x.held[i]? ≠ some m | _ => True) →
         ∀ j, m.ptrOff ≤ j → j < m.ptrOff + m.ptrSize → x'.st.mem.rd j = x.st.mem.rd j := by
-  obtain ⟨h, free, hrel, hc⟩ := reachable_rel o g fuel hfuel x hr
-  obtain ⟨x', _, e, _, _, _, hby⟩ := sim_step o.cfg x h free op fuel hrel o.cfg_ro hop (by omega)
+  obtain ⟨h, free, hrel, hc, _⟩ := reachable_rel o g fuel hfuel x hr
+  obtain ⟨x', _, e, _, _, _, hby⟩ := sim_step o.cfg x h free op fuel hrel o.cfg_ro hop hc
   exact ⟨x', e, hby⟩
 
+-- CHANGED (histories now contain `truncate`): hypothesis `hfits` added (`truncate` only for the unsync flavour and
+-- only up to the capacity the traversal fuel covers, see `COp.fits`).
 /-- the reserved prefix and the header area are never written by a history -/
 theorem prefix_untouched (o : Opts) (g : Guards o) (fuel : Nat) (hfuel : o.cap + 2 ≤ fuel) (s : St)
-    (hs : o.init = some s) (ops : List COp) (hops : ∀ op ∈ ops, COp.ok op) :
+    (hs : o.init = some s) (ops : List COp) (hops : ∀ op ∈ ops, COp.ok op)
+    (hfits : ∀ op ∈ ops, COp.fits o.cfg fuel op) :
     ∃ x, crun o.cfg fuel (CSess.start s) ops = .ok x ∧ PrefixIntact o.cfg s x.st := by
-  obtain ⟨x, _, _, e, _, _, hpre⟩ := run_rel o g fuel hfuel s hs ops hops
+  obtain ⟨x, _, _, e, _, _, hpre⟩ := run_rel o g fuel hfuel s hs ops hops hfits
   exact ⟨x, e, hpre⟩
 
 set_option linter.unusedVariables false in
